@@ -219,7 +219,7 @@ func main() {
 	opc := parse("lib/btc/opcodes.go")
 	fileConsts(opc, env)
 
-	for _, n := range []string{"MAX_BLOCK_WEIGHT", "LOCKTIME_THRESHOLD", "MedianTimeSpan", "MovingCheckopintDepth", "BIP16SwitchTime",
+	for _, n := range []string{"MAX_BLOCK_WEIGHT", "MAX_MONEY", "LOCKTIME_THRESHOLD", "MedianTimeSpan", "MovingCheckopintDepth", "BIP16SwitchTime",
 		"POWRetargetSpam", "TargetSpacing", "targetInterval",
 		"VER_P2SH", "VER_DERSIG", "VER_NULLDUMMY", "VER_CLTV", "VER_CSV", "VER_WITNESS", "VER_TAPROOT", "OP_0", "OP_1"} {
 		v, ok := env[n]
